@@ -2,7 +2,9 @@ package bech32
 
 import (
 	"errors"
+	"fmt"
 	"os"
+	"sync"
 	"testing"
 )
 
@@ -53,6 +55,31 @@ func vRun(op string, in M) M {
 		return M{"v": v, "panic": p}
 	}
 	panic("unknown op " + op)
+}
+
+// runParBatch decodes all strings concurrently (8 goroutines, several repetitions): every call must give the answer the
+// specification gives for its own input, whatever other calls are doing.  A deviating answer wins over a conforming one.
+func runParBatch(rec *vRec, ins []M) {
+	outs := make([]M, len(ins))
+	var wg sync.WaitGroup
+	for g := 0; g < 8; g++ {
+		wg.Add(1)
+		go func(g int) {
+			defer wg.Done()
+			for rep := 0; rep < 12; rep++ {
+				for i := g; i < len(ins); i += 8 {
+					o := vRun("bech32.Decode", ins[i])
+					if outs[i] == nil || fmt.Sprint(o["ok"]) != fmt.Sprint(outs[i]["ok"]) {
+						outs[i] = o
+					}
+				}
+			}
+		}(g)
+	}
+	wg.Wait()
+	for i := range ins {
+		rec.emit("bech32.Decode", ins[i], outs[i])
+	}
 }
 
 const csAlphabet = "qpzry9x8gf2tvdw0s3jn54khce6mua7l"
@@ -251,8 +278,53 @@ func genC16(do func(string, M)) {
 }
 
 func TestVerifDriver(t *testing.T) {
+	if os.Getenv("VERIF_MODE") == "replay" {
+		rec := vOpen()
+		defer rec.close()
+		var par []M
+		flush := func() {
+			if len(par) > 0 {
+				runParBatch(rec, par)
+				par = nil
+			}
+		}
+		for _, v := range vReadInputs() {
+			if v.In == nil {
+				v.In = M{}
+			}
+			if v.In["par"] == true {
+				par = append(par, v.In)
+				continue
+			}
+			flush()
+			rec.emit(v.Op, v.In, vRun(v.Op, v.In))
+		}
+		flush()
+		return
+	}
 	if os.Getenv("VERIF_FOCUS") == "c16" {
-		vMain(vRun, genC16)
+		rec := vOpen()
+		defer rec.close()
+		var pool []M
+		genC16(func(op string, in M) {
+			in = vNorm(in)
+			rec.emit(op, in, vRun(op, in))
+			if op == "bech32.Decode" && len(pool) < 4000 {
+				pool = append(pool, in)
+			}
+		})
+		// concurrent phase: valid strings and their corrupted neighbours of the same length, interleaved
+		var ins []M
+		for i := 0; i < len(pool) && len(ins) < 400; i += 1 + len(pool)/400 {
+			c := M{}
+			for k, v := range pool[i] {
+				c[k] = v
+			}
+			c["par"] = true
+			ins = append(ins, c)
+		}
+		rec.newTrace()
+		runParBatch(rec, ins)
 		return
 	}
 	vMain(vRun, func(do func(string, M)) {
